@@ -20,6 +20,11 @@ def method_maps(facts):
     return blocks, root
 
 
+def snake(n):
+    """method name of an object name as gendev issues them (PascalCase words: `Ra` -> ra, `RcQ` -> rc_q)"""
+    return re.sub(r"(?<!^)(?=[A-Z])", "_", n).lower()
+
+
 def resolve(blocks, root, key):
     """key 'ba[1]/rb[0]' -> (list of (method fact, index or None)), leaf method fact"""
     cur = root
@@ -84,7 +89,7 @@ def oracle_command_shapes(d):
             continue
         si = (t.get("size_bits_in") or 0) if t.get("fields_in") else 0
         so = (t.get("size_bits_out") or 0) if t.get("fields_out") else 0
-        out[o["name"].lower()] = (si, (si + 7) // 8, so, (so + 7) // 8)
+        out[snake(o["name"])] = (si, (si + 7) // 8, so, (so + 7) // 8)
     return out
 
 
@@ -116,7 +121,7 @@ def oracle_addresses(d):
             a, r = eff(o)
             if o["kind"] == "block":
                 a = o.get("address_offset") or 0
-            n = o["name"].lower()
+            n = snake(o["name"])
             idxs = [None] if not r else list(range(r["count"]))
             # a block ref leads to its TARGET's objects, at the ref's own offset / repeat
             inner = o["objects"] if o["kind"] == "block" else \
@@ -189,7 +194,7 @@ def in_known_overflow_class(key, pl_def):
     blocks = {}
     for o, _ in adef.walk(pl_def["objects"]):
         if o["kind"] == "block":
-            blocks[o["name"].lower()] = o
+            blocks[snake(o["name"])] = o
     for step in key.split("/")[:-1]:
         m = re.fullmatch(r"([a-z_0-9]+)\[(\d+)\]", step)
         if m and int(m.group(2)) > 0 and m.group(1) in blocks:
@@ -207,7 +212,7 @@ def run(ctx):
     known = {k["id"]: k for k in vlib.load_known_findings("C04")}
     rng = random.Random(ctx.seed + 4)
     want = 24 if ctx.tier == "quick" else 200
-    prof = gendev.Profile(conversions=False, enums=False, reset_values=False, wide=False, max_objects=5, max_depth=2, neg_stride=True,
+    prof = gendev.Profile(conversions=False, enums=False, reset_values=False, wide=False, max_objects=5, max_depth=2, neg_stride=True, case_twins=True,
                           block_refs=True)
     cases, defs = [], {}
     tries = 0
@@ -233,8 +238,32 @@ def run(ctx):
         defs[cid] = d
         syntax = rng.choice(["dsl", "dsl", "json"])
         cases.append({"id": cid, "syntax": syntax, "text": adef.render(d, syntax, rng), "name": "Dev", "want": ["mir", "facts", "pretty"]})
+    # directed: pairs of same-kind objects whose names differ only in letter case, the lower-case one declared first, and
+    # refs to the LATER one that leave address and/or repeat to it (a ref resolves to the object of exactly that name —
+    # seed C04-8 compared names ignoring case).  First in the list so that they are always among the compiled ones.
+    twins = []
+    for k in range(3 if ctx.tier == "quick" else 10):
+        a1, a2 = rng.randrange(0, 40), rng.randrange(60, 100)
+        fs = lambda: [adef.mk_field("va", "uint", 0, 8, form="excl")]
+        objs = [adef.mk_register("Twq", a1, 8, fs(), repeat={"count": 2, "stride": 3}),
+                adef.mk_register("TwQ", a2, 16, fs(), byte_order="LE"),
+                adef.mk_ref("Rkeep", "TwQ", {"kind": "register", "allow_address_overlap": True}),
+                adef.mk_ref("Rmove", "TwQ", {"kind": "register", "address": 120 + k}),
+                adef.mk_command("Cwq", a1, basic=True), adef.mk_command("CwQ", a2, size_bits_in=16, byte_order="LE",
+                                                                          fields_in=[adef.mk_field("vb", "uint", 0, 16, form="excl")]),
+                adef.mk_ref("Ckeep", "CwQ", {"kind": "command", "allow_address_overlap": True})]
+        objs[1]["allow_address_overlap"] = True
+        objs[5]["allow_address_overlap"] = True
+        if k % 2:
+            objs = [adef.mk_block("Bt", objs[:2] + objs[4:6], address_offset=200)] + objs[2:4] + objs[6:]
+        d = {"config": adef.mk_config(register_address_type="u16", command_address_type="u16"), "objects": objs}
+        cid = f"t{k}"
+        defs[cid] = d
+        twins.append({"id": cid, "syntax": "dsl" if k % 3 else "json", "text": None, "name": "Dev", "want": ["mir", "facts", "pretty"]})
+        twins[-1]["text"] = adef.render(d, twins[-1]["syntax"], rng)
+    cases = twins + cases
     res = gen_common.run_gen(ctx, exe, cases)
-    acc = [c for c in cases if res[c["id"]].get("status") == "ok" and res[c["id"]].get("parse_ok")][:want]
+    acc = [c for c in cases if res[c["id"]].get("status") == "ok" and res[c["id"]].get("parse_ok")][:want + len(twins)]
     hist = collections.Counter()
     hist["generated"] = len(cases)
     hist["accepted_used"] = len(acc)
